@@ -1,8 +1,8 @@
 {% macro affstep(s1, s2, s3) -%}
             d = exp(-gamma * d);
-            dtw_prev = MAX3(wps[ri_width  + wpsi {{s1}}] - p.penalty,
+            dtw_prev = MAX3(wps[ri_width  + wpsi {{s1}}] - settings->penalty,
                             wps[ri_widthp + wpsi {{s2}}], // diagonal
-                            wps[ri_widthp + wpsi {{s3}}] - p.penalty);
+                            wps[ri_widthp + wpsi {{s3}}] - settings->penalty);
             if (d < tau) {
                 dtw_prev = delta + delta_factor * dtw_prev;
             } else {
